@@ -52,7 +52,9 @@ def main():
             meta["ran"].append("pytest on patched copy: " + out.strip().splitlines()[-1])
         for d in (pat, clean):
             os.makedirs(d + "/_seeded/" + x, exist_ok=True)
-            shutil.copy(demo, d + "/_seeded/" + x + "/demo.py")
+            for fn in os.listdir(src):            # the demo and whatever files it brings along (plugin models)
+                if fn not in ("patch.diff", "patch.orig.diff", "meta.json") and os.path.isfile(os.path.join(src, fn)):
+                    shutil.copy(os.path.join(src, fn), d + "/_seeded/" + x + "/" + fn)
         rc1, out1 = sh([PY, pat + "/_seeded/" + x + "/demo.py"], pat, env(pat), timeout=1200)
         rc0, out0 = sh([PY, clean + "/_seeded/" + x + "/demo.py"], clean, env(clean), timeout=1200)
         meta["demo_with_patch_exit"] = rc1; meta["demo_without_patch_exit"] = rc0
@@ -75,8 +77,8 @@ def main():
         meta["check_results"] = caught
         if src != dst:
             os.makedirs(dst, exist_ok=True)
-            for f in ("patch.diff", "demo.py", "README.md"):
-                if os.path.exists(os.path.join(src, f)):
+            for f in os.listdir(src):
+                if os.path.isfile(os.path.join(src, f)) and f != "meta.json":
                     shutil.copy(os.path.join(src, f), os.path.join(dst, f))
         readme = open(os.path.join(dst, "README.md")).read() if os.path.exists(os.path.join(dst, "README.md")) else ""
         meta["needs_to_manifest"] = readme[:1500]
